@@ -6,7 +6,7 @@ check, always reverts."""
 import json, os, re, subprocess, sys
 VERIF = os.path.dirname(os.path.dirname(os.path.abspath(__file__)))
 FIXES = [('90abcd9', 'C11'), ('b2e89b2', 'C13'), ('60a3977', 'C17'), ('2cefd36', 'C09'), ('b0723eb', 'C10'),
-         ('fe173ce', 'C11'), ('ea42ecc', 'C11'), ('ac5ac58', 'C11'), ('ec9d5b0', 'C17'), ('92100af', 'C09'), ('8848bd4', 'C08'), ('90fb81e', 'C15'), ('59c4098', 'C16'), ('af1a772', 'C10'), ('4941dcf', 'C13'), ('3374ffc', 'C09'), ('95f2a5b', 'C09'), ('77d80e5', 'C08'), ('72eb3c9', 'C09'), ('150c9ea', 'C09'), ('994f944', 'C01'), ('c114d4e', 'C10'), ('426f248', 'C19'), ('d52e436', 'C11'), ('35a2178', 'C04'), ('4b4bb18', 'C09'), ('03ea830', 'C09'), ('2cbb7b2', 'C13'), ('6ff34f3', 'C09'), ('d030010', 'C20')]
+         ('fe173ce', 'C11'), ('ea42ecc', 'C11'), ('ac5ac58', 'C11'), ('ec9d5b0', 'C17'), ('92100af', 'C09'), ('8848bd4', 'C08'), ('90fb81e', 'C15'), ('59c4098', 'C16'), ('af1a772', 'C10'), ('4941dcf', 'C13'), ('3374ffc', 'C09'), ('95f2a5b', 'C09'), ('77d80e5', 'C08'), ('72eb3c9', 'C09'), ('150c9ea', 'C09'), ('994f944', 'C01'), ('c114d4e', 'C10'), ('426f248', 'C19'), ('d52e436', 'C11'), ('35a2178', 'C04'), ('4b4bb18', 'C09'), ('03ea830', 'C09'), ('2cbb7b2', 'C13'), ('6ff34f3', 'C09'), ('d030010', 'C20'), ('bf7dd57', 'C01')]
 if sys.argv[1:]:      # only the named ones: <commit>:<Cxx> ...
     FIXES = [tuple(a.split(':')) for a in sys.argv[1:]]
 def sh(cmd, **kw):
